@@ -23,6 +23,7 @@ type State struct {
 	cells    map[ssa.Value]Val
 	heaps    map[string]string
 	locks    map[string]string // lock key -> held condition
+	called   map[string]string // callee short name -> "has been called on this path" condition
 	lockInfo map[string]*lockRec
 	lastSeen map[string]*State // lock key -> state at last unlock (for rely)
 	defers   []*ssa.Defer
@@ -41,6 +42,10 @@ func (s *State) Clone() *State {
 	}
 	for k, v := range s.locks {
 		n.locks[k] = v
+	}
+	n.called = map[string]string{}
+	for k, v := range s.called {
+		n.called[k] = v
 	}
 	for k, v := range s.lockInfo {
 		n.lockInfo[k] = v
@@ -512,6 +517,29 @@ func (fx *FuncExec) Merge(ins []incoming, what string) *State {
 			t = ite(ins[i].cond, get(ins[i].st), t)
 		}
 		n.heaps[k] = fx.em.DefineRaw(k, fx.heapInfos[k].sortText, t)
+	}
+	// called: merges like a held condition
+	ck := map[string]bool{}
+	for _, in := range ins {
+		for k := range in.st.called {
+			ck[k] = true
+		}
+	}
+	if n.called == nil {
+		n.called = map[string]string{}
+	}
+	for k := range ck {
+		get := func(s *State) string {
+			if h, ok := s.called[k]; ok {
+				return h
+			}
+			return "false"
+		}
+		t := get(ins[len(ins)-1].st)
+		for i := len(ins) - 2; i >= 0; i-- {
+			t = ite(ins[i].cond, get(ins[i].st), t)
+		}
+		n.called[k] = fx.em.Define("called", SBool, t)
 	}
 	// locks: held condition merges
 	lk := map[string]bool{}
